@@ -129,6 +129,7 @@ def c11(A, ctx, tier):
     plumb.r_rowfilter(A, ctx, dict(floor=10))
     misc.r_grppair(A, ctx, dict(floor=5))
     plumb.r_fitsets(A, ctx, dict(floor=3))
+    plumb.r_weights_guard(A, ctx, dict(floor=6))
     ctx.assume("stationarity of the fitted coefficients is C01's business; the "
                "docstring-formula <-> class correspondence is not decided")
     return dict(explanation="constructor-argument plumbing of the 12 estimators: every "
@@ -178,6 +179,7 @@ def c10(A, ctx, tier):
     storage.r_dispatch(A, ctx, dict(floor=15))
     storage.r_convert(A, ctx, dict(floor=6))
     storage.r_solveformat(A, ctx, dict(floor=6))
+    storage.r_storage_state(A, ctx, dict(floor=15))
     storage.r_solverstate(A, ctx, dict(floor=25))
     misc.r_sparsetest(A, ctx, dict(floor=15))
     misc.r_sibguard(A, ctx, dict(floor=8))
